@@ -42,6 +42,23 @@ CHECKS = {
             "start/stop/step range over all of int64 (step != 0); the first L (6 quick / 12 thorough) __next__ calls are unrolled and compared with Python's range, incl. the "
             "region where next+step leaves int64; the comptime variant's static size annotation and the overload order are read from the AST.",
             TB + "; lib/guppy_models.py; int + is wrapping iadd and comparisons are signed (C04)", "DESIGN.md §5 C18", "E2"),
+    "C14": ("model_checking",
+            "CrossHair/z3 symbolic execution of the real type classes with symbolic copy/drop bounds of the children; structural rule as oracle",
+            "12 type constructors (tuples, array, option, frozenarray, list, function, generic/non-generic structs, sized iterator) are built over two type-variable leaves whose "
+            "(copyable, droppable) bounds are symbolic (all 16 valuations), int and qubit; copyable/droppable/linear/affine/hugr_bound, to_hugr().type_bound() and requires_drop are compared "
+            "with the structural rule, one layer (induction step over arbitrary children) and two layers.",
+            TB + "; installed hugr's type_bound(); induction over nesting depth", "DESIGN.md §5 C14", "E1"),
+    "C17": ("model_checking",
+            "CrossHair/z3 symbolic execution of the real literal range check / literal typing / constant construction over unbounded integers",
+            "An unbounded symbolic Python int runs through _int_bounds_check, python_value_to_guppy_type (all hints, nested in tuples/lists), python_value_to_hugr + IntVal/UnsignedIntVal "
+            "payload decoding, and the -<const> folding of the CFG builder; acceptance must coincide with [-2^63,2^63-1] / [0,2^64-1] and the payload must decode to the value. Linear integer arithmetic: no bound on the value.",
+            TB + "; match-statement desugaring of lib/astx.py (validated against the original functions at import)", "DESIGN.md §5 C17", "E1"),
+    "C04": ("model_checking",
+            "SMT (z3 BitVec64/Float64, LIA twin) obligations generated from /repo's live operator binding tables; sat models replayed against CPython",
+            "For every dunder of int/nat/float/bool the live definition object is read (OpCompiler closure -> HUGR op, NoopCompiler, ReversingChecker, @guppy body AST) and the HUGR semantics of that binding "
+            "is asserted unequal to Python's result: unsat = equal for all 64-bit operands. Known defective regions demand exactly the documented defective behaviour, so other deviations there are still caught. "
+            "The dispatch glue (binary_table, _synthesize_binary, ReversingChecker) runs on the real code under CrossHair. Float // % divmod are only searched for counterexamples (one fpDiv + one fpFMA).",
+            "HUGR op semantics table and Python semantics table in lib/e3_num.py (cross-validated against Python reference implementations / CPython on random+boundary operands each run); z3 5.1; import shim", "DESIGN.md §5 C04", "E3"),
 }
 
 NOT_APPLICABLE = {
@@ -87,6 +104,7 @@ def main():
             "add_only": True,
         },
         "engines": [
+            {"name": "E3", "path": "lib/e3_num.py", "kind_free_text": "direct z3 encodings generated from /repo's live binding tables (numeric tower), process pool, concrete replay against CPython"},
             {"name": "E2", "path": "lib/guppy_models.py", "kind_free_text": "Guppy std source (Python syntax) from /repo compiled unchanged and executed under CrossHair with Python models of the Guppy primitives"},
             {"name": "E1", "path": "lib/xh_worker.py", "kind_free_text": "CrossHair (z3) symbolic execution of real /repo Python units, one OS process per condition, reachability twin, native replay"},
         ],
